@@ -148,7 +148,7 @@ pub(crate) trait Renderer {
     fn ordered_item_prefix(&mut self, i: i64) -> String;
 
     /// Record the start of a named HTML fragment
-    fn record_frag_start(&mut self, fragname: &str);
+    fn record_frag_start(&mut self, fragname: &str) -> Result<()>;
 
     #[allow(unused)]
     /// Push a new foreground colour
